@@ -590,6 +590,34 @@ def _one_ie(ctx, c, mod):
             ctx.counterexample(c, *r)
 
 
+def _ie_trajectory(ctx, case, out, run):
+    """the CG run inside InversionEnabler, compared like a plain cg case: the operator in the inverse mode, right-hand
+    side x, start 0, preconditioner = approximation in the requested mode, nreset 20"""
+    mode = case["mode"]
+    inv = {1: 4, 2: 8, 4: 1, 8: 2}[mode]
+    A = _ie_matrix(case, inv)
+    x = impl.cvec(case, "x")
+    P = None
+    if case.get("approx") is not None:
+        a = case["approx"]
+        M, Mi = impl.cmat(case, "mat", a), impl.cmat(case, "inv", a)
+        P = {1: M, 2: M.conj().T, 4: Mi, 8: Mi.conj().T}[mode]
+    recs = out["recs"]
+    y = out["y"]
+    checked_last = bool(recs) and np.array_equal(recs[-1]["pos"], y)
+    status = 2 if out["warned"] else 0     # CG returns CONVERGED or ERROR; InversionEnabler warns unless CONVERGED
+    if checked_last:
+        grad, value = recs[-1]["grad"], recs[-1]["value"]
+    else:       # left through gamma == 0 or an error exit after the update; that energy object is not observable
+        grad, value = _res(A, x, y), _val(A, x, y)
+    calls = [c for c in out["calls"]][1:]          # the first application is QuadraticEnergy(x0, invop, x)
+    like = dict(status=status, hint=impl._reason_from_log(out["msgs"]), pos=y, grad=grad, value=value, recs=recs,
+                itcount=out["itcount"], ccount=out["ccount"], ncalls=len(calls), A=A, b=x, P=P,
+                x0=np.zeros_like(y), calls=calls, msgs=out["msgs"])
+    pc = dict(op="cg", n=case["n"], cplx=case.get("cplx", False), ctrl=case["ctrl"], klass="T", nreset=20)
+    return compare_cg(ctx, pc, like, run)
+
+
 def compare_ie(ctx, case, out, mod):
     if "error" in out or "error" in mod:
         ctx.stat(f"ie:error={out.get('error')}")
@@ -615,6 +643,9 @@ def compare_ie(ctx, case, out, mod):
         return f"operator applied in modes {sorted(set(out['modes']))}, model: {mod['opmode']}"
     if not set(out["apmodes"]) <= {mod["apmode"]}:
         return f"approximation applied in modes {sorted(set(out['apmodes']))}, model: {mod['apmode']}"
+    why = _ie_trajectory(ctx, case, out, run)
+    if why is not None:
+        return "inner CG run: " + why
     cj = case["ctrl"]
     # controller verdict sequence (decisions outside the margin)
     for k, r in enumerate(out["recs"]):
